@@ -4,6 +4,7 @@ pub mod gen;
 pub mod obj;
 pub mod ops2;
 pub mod oracle;
+pub mod oracle2;
 pub mod probes;
 pub mod rng;
 pub mod simrt;
